@@ -10,6 +10,7 @@ package main
 //         exactly one column), never by the timeout sentinel.
 
 import (
+	"fmt"
 	"go/ast"
 	"go/types"
 	"strings"
@@ -178,4 +179,103 @@ func c04OnlyHelperOf(c *Ctx, fi *FuncInfo, roots map[string]string) (string, str
 		return root, why
 	}
 	return "", ""
+}
+
+// C04.g — Resume re-establishes what Suspend took down: every session mode (DEC private mode, kitty keyboard
+// level, keypad mode) that the exit path resets under guards G is set again by the functions Resume runs,
+// under guards that G implies. (A mode that start-up establishes only as a side effect of the probe phase —
+// which Resume does not repeat — stays off after the first Suspend/Resume cycle.)
+func init() { registerExtra("C04", c04ResumeReestablishes) }
+
+func c04ResumeReestablishes(c *Ctx) {
+	c.Clauses = append(c.Clauses, "C04.g every session mode the exit path resets is set again by the functions Resume runs, under guards implied by the resetter's guards")
+	c.expect("C04.g", 8)
+	suspend := c.P.Func("vaxis.(*Vaxis).Suspend")
+	resume := c.P.Func("vaxis.(*Vaxis).Resume")
+	if suspend == nil || resume == nil {
+		c.undecided("C04.g", "vaxis.(*Vaxis).Resume", 0, "Suspend or Resume not found")
+		return
+	}
+	restoreFns := staticReach(c.P, suspend)
+	resumeFns := staticReach(c.P, resume)
+	ems := ExtractEmissions(c.P, c.P.FuncsIn("vaxis"), vaxisTerminalSink)
+	isWriterFn := func(n string) bool { return strings.HasPrefix(n, "vaxis.(*writer).") }
+	// modes that every frame establishes again by itself
+	perFrame := map[string]string{
+		"DECSET 25":   "the frame prologue hides the cursor and the frame shows it as requested",
+		"DECSET 2026": "balanced per flush (C01.a)",
+	}
+	type site struct {
+		em  *Emission
+		seq Seq
+		ms  *modeSeq
+	}
+	var resets, sets []site
+	for _, e := range ems {
+		if !e.Resolved {
+			continue
+		}
+		base := e.FnName
+		if i := strings.Index(base, "$"); i >= 0 {
+			base = base[:i]
+		}
+		if isWriterFn(base) {
+			continue
+		}
+		for _, t := range e.Templates {
+			for _, s := range parseSeqs(t) {
+				ms := classifySeq(s)
+				if ms == nil {
+					continue
+				}
+				if !(strings.HasPrefix(ms.class, "DECSET ") || ms.class == "kitty-keyboard" || ms.class == "keypad") {
+					continue
+				}
+				if restoreFns[base] && !ms.set {
+					resets = append(resets, site{e, s, ms})
+				}
+				if resumeFns[base] && !restoreFns[base] && ms.set {
+					sets = append(sets, site{e, s, ms})
+				}
+			}
+		}
+	}
+	seen := map[string]bool{}
+	for _, r := range resets {
+		key := fmt.Sprintf("%s/%s reset on exit is set again by Resume", r.em.FnName, r.ms.class)
+		if seen[key] {
+			continue
+		}
+		seen[key] = true
+		if why, ok := perFrame[r.ms.class]; ok {
+			c.okTrivial("C04.g", key, r.em.Call.Pos(), "%s", why)
+			continue
+		}
+		found, best := false, ""
+		for _, s := range sets {
+			if s.ms.class != r.ms.class {
+				continue
+			}
+			var missing []string
+			for _, gk := range s.em.GuardKeys {
+				if !containsStr(r.em.GuardKeys, gk) {
+					missing = append(missing, gk)
+				}
+			}
+			if len(missing) == 0 {
+				found = true
+				best = fmt.Sprintf("set by %q in %s under %v", s.seq.Raw, s.em.FnName, s.em.GuardKeys)
+				break
+			}
+			best = fmt.Sprintf("candidate %q in %s needs %v which the resetter's guards %v do not imply", s.seq.Raw, s.em.FnName, missing, r.em.GuardKeys)
+		}
+		if found {
+			c.ok("C04.g", key, r.em.Call.Pos(), "%q: %s", r.seq.Raw, best)
+		} else {
+			if best == "" {
+				best = "no function that Resume runs sets this mode (start-up establishes it elsewhere, e.g. in the probe phase, which Resume does not repeat)"
+			}
+			c.bad("C04.g", key, r.em.Call.Pos(), "%q is reset by Suspend but not re-established by Resume: %s; after one Suspend/Resume cycle the mode set differs from the one start-up established", r.seq.Raw, best)
+		}
+	}
 }
